@@ -44,6 +44,21 @@ def run_scenarios(hx, items, extra=(), tag="x"):
         return {}
     tmpd = "/var/tmp/c07-%d" % os.getpid()
     os.makedirs(tmpd, exist_ok=True)
+    # threaded awaits block on a FIFO until the scenario's driver writes to it: one FIFO per (scenario, name)
+    fifos = []
+    if any("@FIFO:" in src for _, src in items):
+        sub = []
+        for n, (sid, src) in enumerate(items):
+            if "@FIFO:" in src:
+                def mk(m, n=n):
+                    fn = os.path.join(tmpd, "%s_%d_%s.fifo" % (tag, n, m.group(1)))
+                    if fn not in fifos:
+                        os.mkfifo(fn)
+                        fifos.append(fn)
+                    return fn
+                src = re.sub(r"@FIFO:(\w+)@", mk, src)
+            sub.append((sid, src))
+        items = sub
     chunks = [items[i::NPROC] for i in range(NPROC)]
 
     def one(i):
@@ -60,6 +75,13 @@ def run_scenarios(hx, items, extra=(), tag="x"):
     res = {}
     for o in outs:
         res.update(oracle.parse(o))
+    for fn in fifos:
+        # release a worker (sh / thread of a child that is gone) still blocked on the FIFO, then remove it
+        try:
+            os.close(os.open(fn, os.O_WRONLY | os.O_NONBLOCK))
+        except OSError:
+            pass
+        os.unlink(fn)
     try:
         os.rmdir(tmpd)
     except OSError:
